@@ -19,11 +19,13 @@
 #define M 0
 #endif
 #define ogg_page_serialno env_ps_unused
+#define VF_CUSTOM_BLOCKSIZE
 #include "vf_env.h"
 #undef ogg_page_serialno
 static ogg_int64_t B0,B1,B2,END,D1,LASTP0,G0,P1,RAW,ENDGRAN;   /* B2: where the NEXT link ends (== D1 for a link without any audio page) */ static int S0,S1,ES; static int budget=8; static int cur=-1;
 static long *g_list1; static int g_rec_calls=0, g_rec_fail=0; static ogg_int64_t g_after_hdr=-1; static void *g_setup1, *g_vendor1;
 #include "vorbisfile.c"
+long vorbis_packet_blocksize(vorbis_info *vi,ogg_packet *op){ CHECK(vi->channels==7,"block sizes on the first audio page of the NEXT link are computed with the info fetched for that link"); long r=ND_long(); ASSUME(r==OV_ENOTAUDIO||r==OV_EBADPACKET||r==64||r==2048); return r; }
 static int _seek_helper(OggVorbis_File *vf,ogg_int64_t off){ CHECK(off>=0&&off<=END,"seek inside file"); if(ND_BOOL()) return OV_EREAD; vf->offset=off; return 0; }
 static ogg_int64_t _get_next_page(OggVorbis_File *vf,ogg_page *og,ogg_int64_t boundary){
   ASSUME(budget>0); budget--;
@@ -46,12 +48,14 @@ static int _fetch_headers(OggVorbis_File *vf,vorbis_info *vi,vorbis_comment *vc,
     return r; }
   memset(vi,0,sizeof *vi); memset(vc,0,sizeof *vc); vi->channels=7; vi->rate=12345; g_setup1=vi->codec_setup=malloc(8); g_vendor1=vc->vendor=malloc(1);
   g_list1=*list=malloc(sizeof(long)); (*list)[0]=S1; *n=1; vf->os.serialno=S1; vf->offset=D1; vf->ready_state=STREAMSET; return 0; }
+#ifndef REAL_PCMOFF
 static ogg_int64_t _initial_pcmoffset(OggVorbis_File *vf,vorbis_info *vi){ CHECK(vf->offset==D1 && vi->channels==7,"initial offset of the NEXT link computed at its first audio page with its info");
   /* the real one reads pages until one carries a granule position, or until it has READ the first page of the following link (a link
      without audio pages), or to the end of the file: the offset it leaves is inside the next link in the first case, BEYOND its end otherwise */
   vf->offset=ND_range(0,1L<<40); ASSUME(vf->offset>D1 && vf->offset<=END);
   if(B2>D1) ASSUME(vf->offset<=B2); else ASSUME(B2==END || vf->offset>=B2+27);
   g_after_hdr=vf->offset; return P1; }
+#endif
 static int _bisect_forward_serialno(OggVorbis_File *vf,ogg_int64_t begin,ogg_int64_t searched,ogg_int64_t end,ogg_int64_t endgran,int endserial,long *list,int n,long m){
   g_rec_calls++;
   CHECK(begin==B1,"recursion starts at the next link's first page");
@@ -84,8 +88,12 @@ void harness(void){
     CHECK(vf.dataoffsets[M+1]==D1,"next link's data offset = offset after ITS headers");
     CHECK(vf.vi[M+1].channels==7 && vf.vi[M+1].codec_setup==g_setup1 && vf.vc[M+1].vendor==g_vendor1,"next link's info/comments are the ones fetched for it");
     CHECK(vf.pcmlengths[2*M+1]==G0,"current link's last granule recorded");
+#ifndef REAL_PCMOFF
     CHECK(vf.pcmlengths[2*M+2]==P1,"next link's initial offset");
     CHECK(vf.pcmlengths[2*M+3]==(RAW-P1<0?0:RAW-P1),"next link's length = raw - initial offset, not negative");
+#else
+    CHECK(vf.pcmlengths[2*M+2]>=0 && vf.pcmlengths[2*M+3]>=0 && vf.pcmlengths[2*M+3]==(RAW-vf.pcmlengths[2*M+2]<0?0:RAW-vf.pcmlengths[2*M+2]),"next link: initial offset not negative, length = raw - initial offset, not negative");
+#endif
     if(M==0) CHECK(vf.vi[0].channels==3,"first link's info survives the table rebuild");
     WITNESS_AT("link recorded"); if(vf.links==M+3) WITNESS_AT("more links follow");
     free(g_setup1); free(g_vendor1);
